@@ -351,10 +351,10 @@ def any_spec(draw, depth, sat, opts):
 def spec_strategy(depth=3, sat=True, alias=True, patterns=True, custom=False, derived=False):
     """Strategy for SchemaSpec.  sat=True: hereditarily satisfiable by construction."""
     opts = dict(alias=alias, patterns=patterns, custom=custom, derived=derived)
-    scal = scalar_spec(sat, patterns)
+    scal = scalar_spec(sat, patterns).map(lambda x: x)   # map() keeps one_of from flattening
     if depth <= 0:
         return scal
-    branches = [scal, list_spec(depth, sat, opts), list_spec(depth, sat, opts),
+    branches = [list_spec(depth, sat, opts), list_spec(depth, sat, opts),
                 dict_spec(depth, sat, opts), dict_spec(depth, sat, opts),
                 any_spec(depth, sat, opts)]
     if alias:
@@ -367,7 +367,10 @@ def spec_strategy(depth=3, sat=True, alias=True, patterns=True, custom=False, de
         branches.append(st.builds(lambda a, b: {"t": "or", "a": a, "b": b}, sub, sub))
         branches.append(st.builds(lambda a, b: {"t": "add", "a": a, "b": b}, dsub, dsub))
         branches.append(dsub.flatmap(_required_of))
-    return st.one_of(*branches)
+    cont = st.one_of(*branches)
+    # containers first and three times: Hypothesis' generation is biased towards small examples
+    # (flatmap instead of one_of: one_of would flatten the nested alternatives into one pool)
+    return st.integers(0, 3).flatmap(lambda i: scal if i == 0 else cont)
 
 
 def _required_of(d):
